@@ -162,8 +162,8 @@ class Array:
                     dtype = Dtype(name_length[0], name_length[1])
                 else:
                     raise ValueError(f"Inappropriate Dtype for Array: '{new_dtype}'.")
-            if dtype.length is None:
-                raise ValueError(f"A fixed length format is needed for an Array, received '{new_dtype}'.")
+            if dtype.length is None or dtype.length == 0:
+                raise ValueError(f"A fixed, non-zero length format is needed for an Array, received '{new_dtype}'.")
             self._dtype = dtype
         if self._dtype.scale == 'auto':
             raise ValueError("A Dtype with an 'auto' scale factor can only be used when creating a new Array.")
@@ -230,8 +230,10 @@ class Array:
             if not isinstance(value, Sized):
                 value = list(value)
             if len(value) == items_in_slice:
-                for s, v in zip(range(start, stop, step), value):
-                    self.data.overwrite(self._create_element(v), s * self._dtype.length)
+                # Create all the elements first, so that a value that doesn't fit leaves the Array unchanged.
+                elements = [self._create_element(v) for v in value]
+                for s, element in zip(range(start, stop, step), elements):
+                    self.data.overwrite(element, s * self._dtype.length)
             else:
                 raise ValueError(f"Can't assign {len(value)} values to an extended slice of length {items_in_slice}.")
         else:
@@ -304,8 +306,11 @@ class Array:
         else:
             if isinstance(iterable, str):
                 raise TypeError("Can't extend an Array with a str.")
+            # Build everything first, so that a value that doesn't fit leaves the Array unchanged.
+            new_data = BitArray()
             for item in iterable:
-                self.data += self._create_element(item)
+                new_data += self._create_element(item)
+            self.data += new_data
 
     def insert(self, i: int, x: ElementType) -> None:
         """Insert a new element into the Array at position i.
